@@ -34,9 +34,10 @@ def _raise_op_timeout(signum, frame):
 
 TS = ["1/2", "1/3", "2/3", "1/4", "3/4", "1/5", "5/8"]
 MAXWORLD = 6
-PROFILES = ["frac", "frac", "vec", "fvec", "fvec", "ffloat", "ivec", "sim-full", "sim-minimal", "sim-nofloat", "sim-bounded", "sim-inplace"]
+PROFILES = ["frac", "frac", "vec", "fvec", "fvec", "ffloat", "ivec", "sim-full", "sim-minimal", "sim-nofloat", "sim-bounded", "sim-inplace", "sim-floatable"]
 MUTATORS = ["knot_insert", "knot_remove", "degree_increase", "degree_decrease", "knot_clean", "degree_clean", "clean",
-            "set_ctrlpoints", "set_weights", "set_knotvector", "set_degree", "update", "fit_curve", "fit_points", "fit_function"]
+            "set_ctrlpoints", "set_weights", "set_knotvector", "set_knotvector", "set_degree", "update", "fit_curve", "fit_points",
+            "fit_function", "apply"]
 COMPOSITE = ("knot_clean", "degree_clean", "clean")
 NONMUT = ["eval", "eval", "split", "join", "arith", "arith", "arith_scalar", "arith_scalar", "neg", "eq", "copy", "fraction",
           "derivate", "integrate", "project", "intersect", "str"]
@@ -653,13 +654,31 @@ class CurveEngine:
                 if rng.random() < 0.3 and a.npts + len(ks) <= 12:
                     newL = sorted(newL + list(ks))              # elevated
             if kind == "set_knotvector":
+                arg = newL
+                if not inv and rng.random() < 0.5:
+                    try:
+                        arg = self.KnotVector(newL)       # a KnotVector INSTANCE (may be adopted by the curve), not a list
+                    except Exception:  # noqa
+                        arg = newL
+
                 def call():
-                    a.knotvector = newL
+                    a.knotvector = arg
                 return call, a, inv, "knotvector-setter"
             tol = None if self.cur_op.get("tolnone") else rng.choice([1e-9, None, 1e-3])
             if self.cur_op.get("tolnone") and not faulty and len(ks) > 2:
                 newL = [k for k in raw if k != ks[1 + rng.randrange(len(ks) - 2)]]   # drop one interior knot entirely
             return (lambda: a.update(newL, tol)), a, inv, "update"
+        if kind == "apply":
+            # the public linear transformer with the current knot vector and a (scaled) permutation-free matrix
+            if not has:
+                return None, None, False, kind
+            n = a.npts
+            c = self.num(Fraction(rng.choice([2, 3, -1]), rng.choice([1, 2])))
+            if faulty:
+                matrix = [[c if i == j else 0 for j in range(n + 1)] for i in range(n)]       # wrong shape
+            else:
+                matrix = [[c if i == j else 0 for j in range(n)] for i in range(n)]
+            return (lambda: a.apply(a.knotvector, matrix)), a, faulty, "apply"
         if kind == "set_degree":
             if has and a.weights is not None and (p > 2 or a.npts > 5):
                 return None, None, False, kind
